@@ -106,6 +106,22 @@ CHECKS = {
                      'enumeration of fault subsets at the disk / sheet / '
                      'name / function seams against a fault-free twin',
     },
+    'C17': {
+        'category': 'exploration',
+        'text': 'Seeded interleavings of client actors over objects of one '
+                'lineage (model, deepcopy, dill round trip, copies of '
+                'copies, compiled functions and their copies; acyclic and '
+                'circular workbooks, dictionary and file path): copies are '
+                'taken at scheduler-chosen points, every observed '
+                'calculation / call is compared with a fresh object built '
+                'from the observed object\'s lineage (differential through '
+                'the real code), and copy vs source on three input sets '
+                'right after copying.',
+        'design_ref': 'DESIGN.md 4.6',
+        'technique': 'deterministic simulation: seeded interleaving of '
+                     'operations on original and copies against a '
+                     'fresh-lineage differential oracle',
+    },
 }
 
 NOT_APPLICABLE = {
